@@ -531,11 +531,19 @@ fn cuts_slpp(
 		// batch header; last 3 kB of the archive: end-of-stream marker, footer, tar trailer) and around
 		// every 512-byte block boundary; strided inside bulk data, tar headers and padding
 		let mut cuts: Vec<(usize, String)> = vec![];
+		// the message boundaries of the Arrow stream (end of the schema message, end of the record batch):
+		// every offset from 8 bytes before to 12 bytes after each
+		let bounds: Vec<usize> = if arrow_start < n {
+			crate::container::arrow_frames(&arch[arrow_start..]).map_or(vec![], |(a, b)| vec![arrow_start + a, arrow_start + b])
+		} else {
+			vec![]
+		};
 		for cut in 0..n {
 			let region = slpp_region(&arch, cut);
 			let near_block = cut % 512 < 2 || cut % 512 > 509;
+			let near_msg = bounds.iter().any(|b| cut + 8 >= *b && cut <= *b + 12);
 			let keep = if region == "frames.arrow:data" {
-				stride_arrow <= 1 || cut % stride_arrow == 0 || cut - arrow_start <= 2048 || n - cut <= 3072 || near_block
+				stride_arrow <= 1 || cut % stride_arrow == 0 || cut - arrow_start <= 2048 || n - cut <= 3072 || near_block || near_msg
 			} else if n - cut <= 3072 {
 				true
 			} else {
